@@ -338,7 +338,8 @@ loop:
 			// until the pipe closes.
 			_ = cmd.Process.Signal(syscall.SIGQUIT)
 			go func(pr *os.Process) {
-				time.Sleep(4 * time.Second)
+				// generous: on a loaded machine the dump itself needs CPU; an idle one answers in milliseconds
+				time.Sleep(45 * time.Second)
 				_ = pr.Kill()
 			}(cmd.Process)
 		}
